@@ -255,5 +255,5 @@ def _nat(k):
 
 NATIVE = [("native:disconnect-then-reregister-on-sqlite", _nat(0)), ("native:shutdown-restart-reregister-on-sqlite", _nat(1)),
           ("native:no-run-nothing-restored", _nat(2)), ("native:stored-row-without-start-time", _nat(3)),
-          ("native:idle-disconnect-clears-the-stored-run-id", _nat(4))]
+          ("native:idle-disconnect-clears-the-stored-run-id", _nat(4)), ("native:idle-shutdown-clears-the-stored-run-id", _nat(5))]
 BOUNDED = ["three native scenarios on the real classes with an in-memory sqlite database: cross-check of the ghost-table model (bounded, not counted)"]
